@@ -503,6 +503,35 @@ Proof. unfold clause_holds. destruct (clause_field j); [rewrite level_of_nil|]; 
 Lemma try_prefixes_nil pre names k : try_prefixes [] pre names k = None.
 Proof. induction k as [|k IH]; simpl; [reflexivity|exact IH]. Qed.
 
+Lemma split_on_nonempty c s : split_on c s <> [].
+Proof.
+  induction s as [|x s IH]; simpl; [discriminate|].
+  destruct (split_on c s); [discriminate|]. destruct (N.eqb x c); discriminate.
+Qed.
+
+Lemma dotted_nonempty l x : In x l -> x <> [] -> dotted l <> [].
+Proof.
+  unfold dotted. destruct l as [|y l']; [intros []|]. intros Hin Hx. simpl.
+  destruct l' as [|z l''].
+  - destruct Hin as [->|[]]. exact Hx.
+  - destruct y; discriminate.
+Qed.
+
+Lemma mem_all_nil np s : (forall p, In p np -> p = []) -> s <> [] -> mem_str s np = false.
+Proof.
+  intros Hall Hs. induction np as [|p np IH]; [reflexivity|]. simpl.
+  rewrite (Hall p (or_introl eq_refl)). destruct s; [congruence|]. simpl.
+  apply IH. intros q Hq. apply Hall. right. exact Hq.
+Qed.
+
+Lemma try_prefixes_first np pre c names k :
+  (forall p, In p np -> p = []) -> c <> [] -> try_prefixes np pre (c :: names) k = None.
+Proof.
+  intros Hall Hc. induction k as [|k IH]; simpl; [reflexivity|].
+  rewrite mem_all_nil; [exact IH|exact Hall|].
+  apply (dotted_nonempty _ c); [|exact Hc]. apply in_or_app. right. left. reflexivity.
+Qed.
+
 Lemma cls_eqb_eq a b : cls_eqb a b = true -> a = b.
 Proof. destruct a, b; simpl; intros H; try discriminate; reflexivity. Qed.
 
@@ -575,12 +604,17 @@ Definition disj_like (cfg : es_config) (t : item) : bool :=
 Section Main.
   Variable cfg : es_config.
   Variable d : doc.
-  Hypothesis Hnp : ev_nested_prefixes (mk_env cfg) = [].
+  Hypothesis Hnp : forall p, In p (ev_nested_prefixes (mk_env cfg)) -> p = [].
   Hypothesis Hwf : wf_config cfg = true.
   Let env := mk_env cfg.
 
-  Lemma split_nested_none n cx : split_nested env n cx = None.
-  Proof. unfold split_nested, env. rewrite Hnp. apply try_prefixes_nil. Qed.
+  Lemma split_nested_none n cx : plain_field_name n = true -> split_nested env n cx = None.
+  Proof.
+    intros Hn. unfold split_nested. destruct n as [|c n']; [discriminate Hn|]. simpl in Hn.
+    apply negb_true_iff in Hn. simpl split_on. pose proof (split_on_nonempty c_dot n') as Hne.
+    destruct (split_on c_dot n') as [|w ws]; [congruence|]. rewrite Hn.
+    apply try_prefixes_first; [exact Hnp|discriminate].
+  Qed.
 
   Definition ev (e : eitem) : bool := eeval cfg [] e [] d.
   Definition EV (F : leaf -> leaf) (e : eitem) : bool := ev (on_leaf F e).
@@ -621,7 +655,7 @@ Section Main.
       (conj_like cfg t = true -> forallb (EV F) items = D t cx []) /\
       (disj_like cfg t = true -> existsb (EV F) items = D t cx []).
   Definition SV (t : item) : Prop :=
-    supported t = true -> bool_operands_plain cfg t = true ->
+    supported t = true -> plain_tree cfg t = true ->
     (forall cx items, visit cfg env t None cx = ROk items -> NF t cx items) /\
     (forall cx items, conj_like cfg t || disj_like cfg t = true ->
        walk (visit cfg env) (Some (cls_of t)) cx (children t) = ROk items -> FL t cx items).
@@ -649,7 +683,7 @@ Section Main.
   Lemma on_leaf_id e : on_leaf (fun l => l) e = e.
   Proof. destruct e; reflexivity. Qed.
 
-  Definition SVH (c : item) : Prop := SV c /\ supported c = true /\ bool_operands_plain cfg c = true.
+  Definition SVH (c : item) : Prop := SV c /\ supported c = true /\ plain_tree cfg c = true.
 
   (* the operands of an operation of class p, visited one after the other *)
   Lemma walk_ops p cx l : forall items,
@@ -719,8 +753,8 @@ Section Main.
   Qed.
 
   Lemma bop_children t :
-    bool_operands_plain cfg t = true ->
-    Forall (fun c => bool_operands_plain cfg c = true) (children t).
+    plain_tree cfg t = true ->
+    Forall (fun c => plain_tree cfg c = true) (children t).
   Proof.
     destruct t; simpl; intros H; repeat constructor; try exact H;
       try (apply andb_prop in H as [H1 H2]; assumption).
@@ -948,7 +982,8 @@ Section Main.
       set (cctx := propagate_name (SearchField m fname t) _) in Hv.
       child_visit Hv Hw its. inversion HS as [|? ? (HSc & Hsc & Hbc) _]; subst.
       destruct (proj1 (HSc Hsc Hbc) _ _ Hw) as (e & -> & Hg & Hne & Hk & Hev).
-      simpl in Hv. rewrite split_nested_none in Hv. inversion Hv; subst items.
+      simpl in Hb. apply andb_prop in Hb as [Hfn Hb].
+      simpl in Hv. rewrite (split_nested_none _ _ Hfn) in Hv. inversion Hv; subst items.
       exists e. repeat split; auto. intros ms F HF. rewrite (Hev ms F HF).
       unfold D. simpl den_at. rewrite level_of_nil. simpl. rewrite orb_false_r.
       unfold cctx. rewrite noname_propagate. reflexivity.
@@ -1061,18 +1096,24 @@ Section Main.
   Qed.
 End Main.
 
-Lemma no_nested_code cfg : nested_paths cfg = [] -> ev_nested_prefixes (mk_env cfg) = [].
+Lemma no_nested_code cfg :
+  nested_paths cfg = [] -> forall p, In p (ev_nested_prefixes (mk_env cfg)) -> p = [].
 Proof.
-  unfold nested_paths. intros H. assert (Hd : declared_nested cfg = []).
-  { destruct (declared_nested cfg) as [|p l]; [reflexivity|]. simpl in H. discriminate H. }
-  unfold declared_nested in Hd. simpl. rewrite Hd. reflexivity.
+  unfold nested_paths. intros H p Hin. simpl in Hin. unfold prefixes_of in Hin.
+  apply mem_str_In in Hin. rewrite mem_dedup in Hin. apply mem_str_In in Hin.
+  apply in_map_iff in Hin as [q [Hq Hin]]. fold (declared_nested cfg) in Hin.
+  destruct p as [|c p']; [reflexivity|]. exfalso.
+  assert (Hf : In (c :: p') (filter nonempty_path (flat_map ancestors (declared_nested cfg)))).
+  { apply filter_In. split; [|reflexivity]. apply in_flat_map. exists q. split; [exact Hin|].
+    rewrite <- Hq. apply parent_in_ancestors. }
+  rewrite H in Hf. exact Hf.
 Qed.
 
 (* the boolean skeleton: without nested fields and without F6, the query the builder returns matches
    exactly the documents the tree denotes *)
 Lemma build_sem cfg t j :
   supported t = true -> wf_config cfg = true -> sem_config cfg = true ->
-  nested_paths cfg = [] -> bool_operands_plain cfg t = true ->
+  nested_paths cfg = [] -> plain_tree cfg t = true ->
   build cfg t = ROk j -> forall d, es_matches cfg j d = den cfg t d.
 Proof.
   intros Hs Hwf Hsem Hnn Hb Hbuild d. pose proof (no_nested_code cfg Hnn) as Hnp.
